@@ -1255,6 +1255,86 @@ def run_convert(doc, maps_ast):
     return written, live, shares_mapping
 
 
+VERSIONED_SRC = """from typedpy import Versioned, Constant, FunctionCall, Deleted
+class %(name)s(%(bases)s):
+    a = Array(items=Integer())
+    m = Map(items=[String(), Array(items=Integer())])
+    p = Anything()
+    n = Integer()
+    _required = ['a', 'm', 'p', 'n']
+    _versions_mapping = [
+        {"a": "old_a", "old_a": Deleted, "n": Constant(5)},
+        {"m": "old_m", "old_m": Deleted, "p": FunctionCall(func=lambda x: x, args=["p"])},
+    ]
+"""
+VERSIONED_TYPES = {"a": ["arr", ["int"]], "old_a": ["arr", ["int"]], "m": ["map", ["arr", ["int"]]],
+                   "old_m": ["map", ["arr", ["int"]]], "p": ["any"]}
+
+
+def gen_versioned(rnd):
+    immutable = rnd.random() < 0.4
+    version = rnd.choice([1, 1, 2, 3])
+    empty = ClassSpec("X", "plain", [])
+    a = gen_doc(rnd, ["arr", ["int"]], empty)
+    m = gen_doc(rnd, ["map", ["arr", ["int"]]], empty)
+    pv = gen_doc(rnd, ["any"], empty)
+    doc = {"version": version, "p": pv}
+    doc["old_a" if version == 1 else "a"] = a
+    doc["old_m" if version <= 2 else "m"] = m
+    if version >= 2:
+        doc["n"] = 9
+    return immutable, doc, rnd.choice(["Deserializer", "deserialize_structure"])
+
+
+def mapping_snap(maps):
+    out = []
+    for mp in maps:
+        row = []
+        for k, v in mp.items():
+            if isinstance(v, (str, type)):
+                row.append((k, repr(v)))
+            elif callable(v) and not hasattr(v, "args"):
+                row.append((k, type(v).__name__, snap(v())))
+            else:
+                row.append((k, type(v).__name__, snap(getattr(v, "args", None)), id(getattr(v, "func", None))))
+        out.append(tuple(row))
+    return tuple(out)
+
+
+def run_versioned(immutable, doc, api):
+    """Deserializing an old-version document of a Versioned class ("converting versions"): the document and the
+    class's mapping list are left alone, and nothing of the document is kept."""
+    from typedpy import Deserializer, deserialize_structure
+    ns = {}
+    src = IMPORTS + VERSIONED_SRC % {"name": "C19V", "bases": "Versioned, ImmutableStructure" if immutable else "Versioned"}
+    exec(src, ns)  # noqa: S102
+    cls = ns["C19V"]
+    d = decode(doc)
+    maps = cls._versions_mapping
+    bm, bd = mapping_snap(maps), snap(d)
+    before = {f: snap(v) for f, v in d.items()}
+    cfp0 = class_fp(cls)
+    x = Deserializer(cls).deserialize(d) if api == "Deserializer" else deserialize_structure(cls, d)
+    res = {}
+    for f in d:
+        if f in VERSIONED_TYPES:
+            res[f] = [snap(d[f]) != before[f], False, []]
+    extras = []
+    if snap(d) != bd and not any(r[0] for r in res.values()):
+        extras.append(("writes-arg/Versioned-%s/document-keys" % api, "deserializing a versioned document changed its key set / version"))
+    if mapping_snap(maps) != bm:
+        extras.append(("writes-arg/Versioned-%s/_versions_mapping" % api, "deserializing a versioned document changed the class's mapping list"))
+    ref = copy.deepcopy(x)
+    spec = ClassSpec("C19V", "immutable" if immutable else "plain", [(f, VERSIONED_TYPES[f]) for f in res])
+    hits = probe({f: d[f] for f in res}, lambda: inst_fp(x, ref), VERSIONED_TYPES, spec)
+    for f, paths in hits.items():
+        res[f][1] = True
+        res[f][2] = paths
+    if class_fp(cls) != cfp0 or mapping_snap(maps) != bm:
+        extras.append(("class-state/Versioned-%s" % api, "deserializing (or mutating the document afterwards) changed the class"))
+    return res, extras, src
+
+
 # ===================================================================================== replay
 
 def python_src(src, op, doc):
@@ -1296,6 +1376,17 @@ def replay(obj):
                 bad += 1
         print("required: the element handed to the mutator equals its snapshot, and mutating it afterwards does not change the instance (typed elements)")
         return 1 if bad else 0
+    if kind == "versioned":
+        res, extras, src = run_versioned(obj["immutable"], obj["doc"], obj["api"])
+        print(src)
+        print("document:", obj["doc"], " api:", obj["api"])
+        bad = 0
+        for f, (w, r, paths) in res.items():
+            print("document field %-6s written=%s retained=%s %s" % (f, w, r, paths))
+            bad += 1 if (w or r) and (typed_inside(VERSIONED_TYPES[f]) or obj["immutable"]) else 0
+        for k, what in extras:
+            print("FAILS:", k, "-", what)
+        return 1 if bad or extras else 0
     if kind == "code":
         written, where, outcome = run_code_required((obj["schema"], obj["definitions"], obj["via_definitions"]))
         print("schema:", obj["schema"], "outcome:", outcome, "arguments modified at:", where)
@@ -1567,6 +1658,34 @@ def run(rep, tier):
         if live:
             rep.finding("C19/returns-live/convert_dict/input-document", "the document returned by convert_dict shares objects with the input document",
                         {"kind": "convert", "doc": doc, "maps": maps})
+    # ---------------------------------------------------------------- Deserializer of a Versioned class
+    nver = 80 if tier == "quick" else 800
+    for i in range(nver):
+        immutable, vdoc, api = gen_versioned(rnd)
+        desc0 = {"kind": "versioned", "immutable": immutable, "doc": vdoc, "api": api}
+        try:
+            res, extras, src = run_versioned(immutable, vdoc, api)
+        except Exception as e:  # noqa
+            rep.stat("versioned", "harness-error:" + type(e).__name__)
+            rep.broken("generator:versioned", "%s: %s" % (type(e).__name__, e), desc0)
+            continue
+        for f, (w, r, paths) in res.items():
+            inside = typed_inside(VERSIONED_TYPES[f]) or immutable
+            rep.count("versioned", 1, ("versioned", immutable, vdoc["version"], f, api))
+            rep.stat("versioned", "from-version:%d" % vdoc["version"])
+            add_case("(CSop (SVersionedDeser %s) %s)" % (E.blit(inside), obs_lit(w, r, False)),
+                     dict(desc0, field=f, observed=[w, r, False], py_violates=inside and (w or r)))
+            if not inside:
+                continue
+            if w:
+                rep.finding("C19/writes-arg/Versioned-%s/%s" % (api, label(VERSIONED_TYPES[f])),
+                            "deserializing a versioned document modified its field %r" % f, dict(desc0, python=src))
+            for p_ in paths:
+                rep.finding("C19/retains-arg/Versioned-%s/%s" % (api, p_),
+                            "mutating the versioned document afterwards changed the instance (%s kept by reference)" % p_,
+                            dict(desc0, python=src))
+        for k, what in extras:
+            rep.finding("C19/" + k, what, dict(desc0, python=src))
     Structure.set_fail_fast(fail_fast0) if hasattr(Structure, "set_fail_fast") else None
 
     # ---------------------------------------------------------------- correspondence in Coq
